@@ -57,7 +57,7 @@ def main():
             "evidence_file": "/verif/evidence/%s.json" % pid,
             "replay_cmd_template": "./check %s --replay {path}" % pid,
             "engine": "tla-spec",
-            "level_claimed": {"category": "model_checking" if pid != "C09" else "other", "text": text, "design_ref": "DESIGN.md section 5 (%s)" % pid},
+            "level_claimed": {"category": "model_checking", "text": text, "design_ref": "DESIGN.md section 5 (%s)" % pid},
             "level_note": "Trusted: TLC 1.8, the Go harness projection (reads exported fields only), the RFC reading written down in spec/*.tla. Bounded: exhaustive only inside the stated small scopes; sampled (seeded) beyond.",
             "technique": tech,
         })
